@@ -1,10 +1,11 @@
 /- C08 driver: op lines in, observable lines out (same format as props/C08/harness.cpp). -/
 import TboxModel.Util
 import TboxModel.C08.Model
+import TboxModel.C08.Fast
 open Tbox.Util Tbox.C08
 
 structure St where
-  cab  : Cab := {}
+  cab  : CabA := {}      -- the cabinet over an Array: proved equal to the list model (C08_cab_array_refines)
   toks : Array Token := #[]
   pool : PoolSys := PoolSys.init
   fd   : FdSys := FdSys.init
@@ -12,7 +13,34 @@ structure St where
 
 def maxObj : Nat := 1000
 def maxVal : Nat := 1000000
-def maxRaw : Nat := 4000000000
+def maxBulk : Nat := 400000
+
+/-- a `size_t` value: decimal digits only, at most 20 of them, below 2^64 -/
+def u64? (w : String) : Option Nat := do
+  if w.isEmpty ∨ w.length > 20 ∨ ¬ w.all Char.isDigit then none
+  let n ← w.toNat?
+  if n < Token.word then some n else none
+
+/-- checksum of a list of answers: Σ (i+1)·r mod 1000000007 -/
+def digestSum (l : List Nat) : Nat :=
+  (l.foldl (fun (acc : Nat × Nat) r => (acc.1 + 1, (acc.2 + (acc.1 + 1) * r) % 1000000007)) (0, 0)).2
+
+def firstZero (l : List Nat) : String :=
+  match l.findIdx? (· == 0) with
+  | some i => toString i
+  | none => "-"
+
+def tokLt (a b : Token) : Bool := a.id < b.id || (a.id == b.id && a.pos < b.pos)
+
+/-- non-null tokens, and how many of them equal their predecessor in sorted order -/
+def dupTokens (toks : Array Token) : Nat × Nat :=
+  let live := toks.filter (fun t => t.id != 0)
+  let sorted := live.qsort tokLt
+  let d := (sorted.foldl (fun (acc : Option Token × Nat) t =>
+      (some t, if acc.1 == some t then acc.2 + 1 else acc.2)) (none, 0)).2
+  (live.size, d)
+
+def bulkObjs (n o0 : Nat) : List Nat := (List.range n).map fun i => 1 + (o0 + i) % 999
 
 def commaList (l : List String) : String := if l.isEmpty then "-" else ",".intercalate l
 def bit (b : Bool) : String := if b then "1" else "0"
@@ -49,9 +77,9 @@ def countDups (old : Array Token) (new : List Token) : Nat :=
   (new.foldl (fun (acc : Array Token × Nat) t =>
     (acc.1.push t, if t.id ≠ 0 ∧ acc.1.any (· == t) then acc.2 + 1 else acc.2)) (old, 0)).2
 
-def sizeStr (c : Cab) : String := "size=" ++ toString c.size
+def sizeStr (c : CabA) : String := "size=" ++ toString c.size
 
-def lookupTag (c : Cab) (t : Token) : String :=
+def lookupTag (c : CabA) (t : Token) : String :=
   if t.id = 0 then "tok-null" else
   match c.cells[t.pos]? with
   | none => "tok-out-of-range"
@@ -75,8 +103,54 @@ def cabLine (s : St) (ws : List String) : Option (St × List String) :=
       let t := s.toks[← nat? i s.toks.size]?.getD {}
       pure (s, ["B " ++ lookupTag s.cab t, "P at=" ++ toString (s.cab.at' t)])
   | ["atraw", id, pos] => do
-      let t : Token := ⟨← nat? id maxRaw, ← nat? pos maxRaw⟩
+      -- a forged token: any pair of size_t values, through the Token constructor
+      let t : Token := Token.ctor (← u64? id) (← u64? pos)
       pure (s, ["B raw-" ++ lookupTag s.cab t, "M at=" ++ toString (s.cab.at' t)])
+  | ["jump", v] => do
+      let v ← u64? v
+      if v < s.cab.lastId then none
+      pure ({ s with cab := s.cab.jump v }, ["B jump" ++ (if v + 3 ≥ sizeMax then "-near-max" else ""), "P ok"])
+  | ["bulk", "alloc", n, o0] => do
+      let n ← nat? n (maxBulk + 1)
+      let o0 ← nat? o0 maxObj
+      if s.toks.size + n > 2 * maxBulk then none
+      let cells0 := s.cab.cells.size
+      let hadFree := s.cab.firstFree ≠ sizeMax
+      let (c, toks) := s.cab.allocN (bulkObjs n o0) s.toks
+      let nulls := (toks.extract s.toks.size toks.size).foldl (fun k t => if t.id == 0 then k + 1 else k) 0
+      let first := toks[s.toks.size]?.getD {}
+      let last := toks.back?.getD {}
+      let crossed (b : Nat) : Bool := cells0 ≤ b ∧ b < c.cells.size
+      pure ({ s with cab := c, toks := toks },
+            ["B bulk-alloc" ++ (if hadFree then " bulk-alloc-reuse" else "") ++ (if crossed 65536 then " bulk-cross-2^16" else "") ++
+               (if c.cells.size > 65536 then " bulk-above-2^16" else ""),
+             "P bulk alloc n=" ++ toString n ++ " null=" ++ toString nulls ++ " " ++ sizeStr c,
+             "M bulk tok first=" ++ toString first.id ++ "." ++ toString first.pos ++ " last=" ++ toString last.id ++ "." ++ toString last.pos])
+  | ["bulk", "at", frm, n] => do
+      let frm ← nat? frm (2 * maxBulk + 1)
+      let n ← nat? n (2 * maxBulk + 1)
+      if frm + n > s.toks.size then none
+      let ans := s.cab.atN (s.toks.extract frm (frm + n)).toList
+      let res := ans.foldl (fun k r => if r != 0 then k + 1 else k) 0
+      pure (s, ["B bulk-at" ++ (if res < n then " bulk-at-some-dead" else ""),
+                "P bulk at resolved=" ++ toString res ++ " firstnull=" ++ firstZero ans ++ " sum=" ++ toString (digestSum ans)])
+  | ["bulk", "free", frm, n, m, r, dir] => do
+      let frm ← nat? frm (2 * maxBulk + 1)
+      let n ← nat? n (2 * maxBulk + 1)
+      let m ← nat? m 100000
+      let r ← nat? r 100000
+      if frm + n > s.toks.size ∨ m = 0 ∨ r ≥ m ∨ (dir != "up" ∧ dir != "down") then none
+      let idx := (List.range n).filter fun i => i % m == r
+      let idx := if dir == "up" then idx else idx.reverse
+      let ts := idx.map fun i => s.toks[frm + i]?.getD {}
+      let (c, rets) := s.cab.freeN ts #[]
+      let freed := rets.foldl (fun k x => if x != 0 then k + 1 else k) 0
+      pure ({ s with cab := c },
+            ["B bulk-free-" ++ dir ++ (if freed < ts.length then " bulk-free-some-dead" else ""),
+             "P bulk free freed=" ++ toString freed ++ " sum=" ++ toString (digestSum rets.toList) ++ " " ++ sizeStr c])
+  | ["bulk", "distinct"] =>
+      let (live, d) := dupTokens s.toks
+      some (s, ["P bulk distinct tokens=" ++ toString live ++ " dups=" ++ toString d])
   | ["upd", i, o] => do
       let t := s.toks[← nat? i s.toks.size]?.getD {}
       let (c, b) := s.cab.update t (← nat? o maxObj)
@@ -101,21 +175,70 @@ def cabLine (s : St) (ws : List String) : Option (St × List String) :=
   | ["each", scr] => do
       let ps ← parseScript scr s.toks
       let f := scriptFn ps
-      let newToks := s.cab.actTokens (s.cab.eachActs f)
-      let (c, visP) := s.cab.foreach f
+      let c0 := s.cab.toCab
+      let newToks := c0.actTokens (c0.eachActs f)
+      let (c, visP) := c0.foreach f
       let vis := visP.map (·.2)
       -- visiting order / reach when callbacks change other entries depend on cell reuse: M line
       let sorted := (vis.toArray.qsort (· < ·)).toList
       let tags := (if c.count < s.cab.count then ["each-removed"] else ["each-plain"]) ++
         (if ps.any (fun p => match p.2 with | .alloc _ => true | _ => false) then ["each-cb-alloc"] else []) ++
         (if ps.any (fun p => p.2 == .clear) then ["each-cb-clear"] else []) ++
-        (if c.cells.length > s.cab.cells.length then ["each-cb-grew"] else [])
-      pure ({ s with cab := c, toks := s.toks ++ newToks.toArray },
+        (if c.cells.length > c0.cells.length then ["each-cb-grew"] else [])
+      pure ({ s with cab := CabA.ofCab c, toks := s.toks ++ newToks.toArray },
             ["B " ++ " ".intercalate tags,
-             "P each " ++ (if ps.isEmpty then commaList (sorted.map toString) else "*") ++ " " ++ sizeStr c ++
+             "P each " ++ (if ps.isEmpty then commaList (sorted.map toString) else "*") ++ " " ++ sizeStr (CabA.ofCab c) ++
                " deadvisit=0 dup=" ++ toString (countDups s.toks newToks),
              "M order " ++ commaList (vis.map toString) ++ " toks=" ++
                commaList (newToks.map fun t => toString t.id ++ "." ++ toString t.pos)])
+  | _ => none
+
+def tokStr (t : Token) : String :=
+  "id=" ++ toString t.id ++ " pos=" ++ toString t.pos ++ " null=" ++ bit t.isNull ++ " bool=" ++ bit t.toBool
+
+/-- the hash VALUE is model-internal (any function compatible with `==` would do): `M` line -/
+def hashStr (t : Token) : String := "M hash=" ++ toString t.hash
+
+def magTag (pfx : String) (v : Nat) : String :=
+  pfx ++ (if v ≥ 2 ^ 63 then ">=2^63" else if v ≥ 2 ^ 48 then ">=2^48" else if v ≥ 2 ^ 32 then ">=2^32"
+          else if v ≥ 2 ^ 16 then ">=2^16" else if v ≥ 256 then ">=2^8" else "<2^8")
+
+/-- `(id pos)*` -/
+def parsePairs : List String → Option (List Token)
+  | [] => some []
+  | i :: p :: rest => do
+      let i ← u64? i
+      let p ← u64? p
+      pure (Token.ctor i p :: (← parsePairs rest))
+  | _ => none
+
+def tokLine (ws : List String) : Option (List String) :=
+  match ws with
+  | ["def"] => some ["P tok " ++ tokStr Token.dflt, hashStr Token.dflt]
+  | ["mk", i, p] => do
+      let t := Token.ctor (← u64? i) (← u64? p)
+      pure ["B " ++ magTag "tok-id" t.id ++ " " ++ magTag "tok-pos" t.pos, "P tok " ++ tokStr t ++ " copy=1", hashStr t]
+  | ["reset", i, p] => do
+      let t := Token.ctor (← u64? i) (← u64? p)
+      pure ["P tok " ++ tokStr t.reset, hashStr t.reset]
+  | ["cmp", i1, p1, i2, p2] => do
+      let a := Token.ctor (← u64? i1) (← u64? p1)
+      let b := Token.ctor (← u64? i2) (← u64? p2)
+      pure ["B " ++ (if a.id == b.id then (if a.pos == b.pos then "cmp-equal" else "cmp-same-id") else "cmp-diff-id"),
+            "P cmp eq=" ++ bit (a.equal b) ++ " ne=" ++ bit (a.ne b) ++ " lt=" ++ bit (a.less b) ++ " le=" ++ bit (a.le b) ++
+            " gt=" ++ bit (a.gt b) ++ " ge=" ++ bit (a.ge b) ++ " hashok=" ++ bit (!(a.equal b) || a.hash == b.hash),
+            "M heq=" ++ bit (a.hash == b.hash)]
+  | "set" :: rest => do
+      if rest.length > 80 then none
+      let ts ← parsePairs rest
+      -- std::set<Token> / std::unordered_set<Token>: distinct tokens, in `<` order
+      let sorted := (ts.toArray.qsort Token.less).toList
+      let uniq := sorted.foldl (fun (acc : List Token) t => match acc with
+        | x :: _ => if x.equal t then acc else t :: acc
+        | [] => [t]) []
+      let uniq := uniq.reverse
+      pure ["P set n=" ++ toString uniq.length ++ " un=" ++ toString uniq.length ++ " order=" ++
+            commaList (uniq.map fun t => toString t.id ++ "." ++ toString t.pos)]
   | _ => none
 
 def poolStatus (s : PoolSys) : String :=
@@ -209,6 +332,26 @@ def poolLine (s : St) (ws : List String) : Option (St × List String) :=
       let p := s.pool.step (.drop k)
       pure ({ s with pool := p }, [if s.pool.liveBlocks.isEmpty then "B pool-drop-empty" else "B pool-drop-live", poolStatus p])
   | ["stat"] => some (s, [poolStatus s.pool])
+  | ["bulk", n, k, m] => do
+      -- a pool of its own: n objects alive at once, all freed in allocation order, then m more
+      let n ← nat? n (maxBulk + 1)
+      let k ← if k == "max" then some sizeMax else nat? k (maxBulk + 1)
+      let m ← nat? m (maxBulk + 1)
+      if m > n then none
+      let p0 := ({} : Pool).renew k
+      let r := p0.allocManyTR n []
+      let blocks := r.2.reverse
+      let p2 := r.1.freeMany blocks
+      let r3 := p2.allocManyTR m []
+      let p4 := r3.1.freeMany r3.2.reverse
+      let dups (l : List Nat) : Nat :=
+        ((l.toArray.qsort (· < ·)).foldl (fun (acc : Option Nat × Nat) b => (some b, if acc.1 == some b then acc.2 + 1 else acc.2)) (none, 0)).2
+      let line (tag : String) (p : Pool) (live alias : Nat) : String :=
+        "P poolbulk " ++ tag ++ " live=" ++ toString live ++ " ctor=" ++ toString p.ctor ++ " dtor=" ++ toString p.dtor ++
+        " stat=" ++ toString p.stat.allocT ++ "/" ++ toString p.stat.freeT ++ "/" ++ toString p.stat.peakA ++ "/" ++ toString p.stat.peakF ++
+        " alias=" ++ toString alias
+      pure (s, ["B pool-bulk" ++ (if n > k then " pool-bulk-over-keep" else "") ++ (if m > 0 ∧ k > 0 then " pool-bulk-reuse" else ""),
+                line "a" r.1 n (dups blocks), line "f" p2 0 0, line "b" r3.1 m (dups r3.2), line "e" p4 0 0])
   | _ => none
 
 def fdStatus (old s : FdSys) : List String :=
@@ -233,6 +376,7 @@ def fdTag (s : FdSys) (op : FdOp) : String :=
   match op with
   | .fresh h => "fresh-" ++ relTag h
   | .opn h _ => "open-" ++ relTag h
+  | .opnNeg h _ fn => "openneg-" ++ (if fn then "fn-" else "") ++ relTag h
   | .copyCtor d c => "cpc-" ++ relTag d ++ (if (s.detailOf c).isNone then "-from-null" else "")
   | .moveCtor d _ => "mvc-" ++ relTag d
   | .copyAssign d c => if d = c then "cpa-self" else
@@ -253,6 +397,9 @@ def parseFd (ws : List String) : Option FdOp :=
   | ["new", h] => do pure (.fresh (← sl h))
   | ["open", h, "fn"] => do pure (.opn (← sl h) true)
   | ["open", h, "raw"] => do pure (.opn (← sl h) false)
+  | ["open", h, "nullfn"] => do pure (.opn (← sl h) false)     -- `Fd(fd, CloseFunc())`: an empty function = no function
+  | ["openneg", h, k, "fn"] => do pure (.opnNeg (← sl h) (← nat? k 3) true)
+  | ["openneg", h, k, "raw"] => do pure (.opnNeg (← sl h) (← nat? k 3) false)
   | ["cpc", d, c] => do pure (.copyCtor (← sl d) (← sl c))
   | ["mvc", d, c] => do pure (.moveCtor (← sl d) (← sl c))
   | ["cpa", d, c] => do pure (.copyAssign (← sl d) (← sl c))
@@ -323,6 +470,12 @@ def ltTag (s : LtSys) (op : LtOp) : String :=
     | some d => match s.details[d]? with
         | some det => if det.cnt = 0 then "t-frees" else "t-outlived-by-watchers"
         | none => "t-?"
+  -- what the source of a copy / move watches: nothing, a record whose tag is gone, a live tag
+  let src (v : Nat) : String := match s.wOf v with
+    | none => "-from-null"
+    | some d => match s.details[d]? with
+        | some det => if det.alive then "" else "-from-dead"
+        | none => "-from-?"
   match op with
   | .tnew i => "tnew-" ++ trel i
   | .tdel i => "tdel-" ++ trel i
@@ -330,10 +483,10 @@ def ltTag (s : LtSys) (op : LtOp) : String :=
   | .tassign _ _ => "tassign"
   | .wnew w => "wnew-" ++ rel w
   | .wtag w _ => "wtag-" ++ rel w
-  | .wcopyCtor w v => "wcpc-" ++ rel w ++ (if (s.wOf v).isNone then "-from-null" else "")
-  | .wmoveCtor w _ => "wmvc-" ++ rel w
-  | .wcopyAssign w v => if w = v then "wcpa-self" else "wcpa-" ++ rel w ++ (if (s.wOf v).isNone then "-from-null" else "")
-  | .wmoveAssign w v => if w = v then "wmva-self" else "wmva-" ++ rel w
+  | .wcopyCtor w v => "wcpc-" ++ rel w ++ src v
+  | .wmoveCtor w v => "wmvc-" ++ rel w ++ (if src v == "-from-dead" then "-from-dead" else "")
+  | .wcopyAssign w v => if w = v then "wcpa-self" else "wcpa-" ++ rel w ++ src v
+  | .wmoveAssign w v => if w = v then "wmva-self" else "wmva-" ++ rel w ++ (if src v == "-from-dead" then "-from-dead" else "")
   | .wswap _ _ => "wswap"
   | .wreset w => "wreset-" ++ rel w
 
@@ -353,6 +506,7 @@ def stepLine (s : St) (line : String) : St × List String :=
   | "pool" :: ws => match poolLine s ws with | some r => r | none => (s, ["bad-op"])
   | "fd" :: ws => match fdLine s ws with | some r => r | none => (s, ["bad-op"])
   | "lt" :: ws => match ltLine s ws with | some r => r | none => (s, ["bad-op"])
+  | "tok" :: ws => match tokLine ws with | some r => (s, r) | none => (s, ["bad-op"])
   | _ => (s, ["bad-op"])
 
 def main : IO Unit := runDriver ({} : St) stepLine
